@@ -272,12 +272,28 @@ where
             if live != replayed && !BUFFERED_SEEN.swap(true, std::sync::atomic::Ordering::Relaxed) {
                 report(L_BUFFERED, format!("{} subscription(s); messages buffered during subscription validation, in order: {payloads:?}", subs.len()), format!("process_buffered_events yields {replayed:?}"), format!("{live:?} (what the live path yields for the same messages)"));
             }
+            // and the same messages through the real ExchangeStream (the routing layer between the socket and the transformer: every output of a
+            // message is buffered and yielded, in order - a message that normalises into several events yields ALL of them)
+            if outs.iter().all(|o| o.is_ok()) {
+                let SubscriptionMeta { instrument_map, .. } = WebSocketSubMapper::map::<Ex, I, K>(subs);
+                let (tx, _rx) = tokio::sync::mpsc::unbounded_channel();
+                if let Ok(tf3) = futures::executor::block_on(<StatelessTransformer<Ex, I::Key, K, M> as ExchangeTransformer<Ex, I::Key, K>>::init(instrument_map, &[], tx)) {
+                    let inner = futures::stream::iter(payloads.iter().map(|p| Ok::<WsMessage, barter_integration::protocol::websocket::WsError>(WsMessage::text(p.clone()))).collect::<Vec<_>>());
+                    let stream = barter_integration::stream::ExchangeStream::<WebSocketParser, _, _>::new(inner, tf3, std::collections::VecDeque::new());
+                    let streamed: Vec<String> = futures::executor::block_on(futures::StreamExt::collect::<Vec<_>>(stream)).iter().map(show).collect();
+                    if live != streamed && !STREAMED_SEEN.swap(true, std::sync::atomic::Ordering::Relaxed) {
+                        report(L_STREAMED, format!("{} subscription(s); messages read from the socket, in order: {payloads:?}", subs.len()), format!("ExchangeStream yields {streamed:?}"), format!("{live:?} (every output of every message, in order)"));
+                    }
+                }
+            }
         }
     }
     Ok(outs)
 }
 const L_BUFFERED: &str = "C13.bounded.buffered_messages_are_attributed_like_live_ones";
 static BUFFERED_SEEN: std::sync::atomic::AtomicBool = std::sync::atomic::AtomicBool::new(false);
+const L_STREAMED: &str = "C13.bounded.every_event_of_a_message_leaves_the_exchange_stream";
+static STREAMED_SEEN: std::sync::atomic::AtomicBool = std::sync::atomic::AtomicBool::new(false);
 
 struct St { seen: HashSet<&'static str>, n: u64 }
 
